@@ -507,10 +507,18 @@ class AXIArbiter(LiteXModule):
             request  = target.ar.valid & target.ar.ready,
             response = target.r.valid  & target.r.ready & target.r.last
         )
+        # Write data can be accepted before its address: a burst of write data also holds the grant, from its
+        # first beat until its response.
+        w_first = Signal(reset=1)
+        self.sync += If(target.w.valid & target.w.ready, w_first.eq(target.w.last))
+        self.wr_data_lock = wr_data_lock = _AXIRequestCounter(
+            request  = target.w.valid & target.w.ready & w_first,
+            response = target.b.valid & target.b.ready
+        )
 
         # Switch to next request only if there are no responses pending.
         self.comb += [
-            self.rr_write.ce.eq(~(target.aw.valid | target.w.valid | target.b.valid) & wr_lock.ready),
+            self.rr_write.ce.eq(~(target.aw.valid | target.w.valid | target.b.valid) & wr_lock.ready & wr_data_lock.ready),
             self.rr_read.ce.eq(~(target.ar.valid | target.r.valid) & rd_lock.ready),
         ]
 
